@@ -101,10 +101,12 @@ pub fn transcript(tier: Tier, seed: u64) -> Vec<String> {
         let k32: Vec<[u8; 32]> = vec![le32_from_u64(1), le32_from_u64(2), n_plus(-1), n_plus(1), [0xFF; 32], p248, p255];
         let e32: Vec<[u8; 32]> = vec![[0u8; 32], le32_from_u64(1), le32_from_u64(2), [0xFF; 32], n_plus(-1)];
         let mut i = 0usize;
+        let zero32 = [0u8; 32];
         for pk in &k32 {
             for v in &k32 {
                 for u in &h20 {
                     for e in &e32 {
+                        let v = if i % 7 == 3 { &zero32 } else { v }; // a verifier of 0 in the database: 0^u, and (A*0)^0 when b = 0 too
                         let ss = catch(|| verif_hooks::server_s(*pk, *v, *u, *e)).map(|r| r.map(|s| hex(&s)).unwrap_or("refusedA".into())).unwrap_or("panic".into());
                         let cs = catch(|| verif_hooks::client_s(*pk, *u, *e, h20[i % 4], 7, N_LE)).map(|r| r.map(|s| hex(&s)).unwrap_or("refusedB".into())).unwrap_or("panic".into());
                         lines.push(format!("boundary|{i:05}|pk={} v={} u={} e={}\tserverS={ss}\tclientS={cs}", hex(pk), hex(v), hex(u), hex(e)));
@@ -148,7 +150,7 @@ pub fn transcript(tier: Tier, seed: u64) -> Vec<String> {
         mods.push(("10^20", U::from_u64(10_000_000_000).mul(&U::from_u64(10_000_000_000))));
         mods.push(("3*2^64", U::from_u64(3).mul(&p2(64))));
     }
-    let gens: Vec<u8> = if tier == Tier::Thorough { (2..=255).collect() } else { vec![2, 3, 4, 5, 7, 8, 11, 13, 16, 64, 128, 183, 250, 251, 254, 255] };
+    let gens: Vec<u8> = if tier == Tier::Thorough { (0..=255).collect() } else { vec![0, 1, 2, 3, 4, 5, 7, 8, 11, 13, 16, 64, 128, 183, 250, 251, 254, 255] };
     // 64/128/192: with g a power of two the client's key is 2^(k*a), i.e. has zero low 64-bit limbs
     let a_alpha: Vec<[u8; 32]> = vec![[0u8; 32], le32_from_u64(1), le32_from_u64(2), le32_from_u64(64), le32_from_u64(128), le32_from_u64(192), le32_from_u64(250), n_plus(-1), [0xFF; 32], refmodel::ctr_array::<32>(seed, "t-ga")];
     let b_alpha: Vec<[u8; 32]> = vec![le32_from_u64(1), le32_from_u64(1234567), n_plus(1), [0xFF; 32], refmodel::ctr_array::<32>(seed, "t-gB")];
